@@ -167,6 +167,8 @@ def _join(sep, arg, env):
                 ast.fix_missing_locations(e2)
                 ents.append(("item", of_expr(e2, env), e2))
             return join_entries(sep, ents, arg)
+    if sep == "" and isinstance(arg, (ast.ListComp, ast.GeneratorExp)):
+        return [comp_entry(arg)]  # "".join(f(x) for x in xs): zero or more repetitions of f(x), nothing between them
     items = _list_items(arg)
     if items is None:
         return [("hole", ast.Call(func=ast.Attribute(value=ast.Constant(sep), attr="join", ctx=ast.Load()), args=[arg], keywords=[]), "")]
